@@ -296,6 +296,11 @@ fn voiceset_part(rep: &Report) {
     v.stream_models.pop();
     v.metadata.stream_type.pop();
     diffs.push(("streams", v));
+    // a voice that contradicts its own header: one stream model fewer than NUM_STREAMS says (hand-built voices: the
+    // fields are public)
+    let mut v = a.clone();
+    v.stream_models.pop();
+    diffs.push(("stream models fewer than the header's stream count", v));
     for si in 0..a.stream_models.len() {
         let mut v = a.clone();
         v.stream_models[si].metadata.vector_length += 1;
